@@ -151,6 +151,7 @@ pub fn e2e_scenario(c: &E2eCase) -> crate::e2e::Scenario {
         with_file: c.with_file,
         via_config,
         split: c.split,
+        long_table: false,
         // the filters also decide what enters the stored history (/track): asked for the first frame's aircraft and
         // for one other aircraft of the batch
         track: {
